@@ -52,6 +52,10 @@ func main() {
 	out := flag.String("out", "/verif/.build/ov", "output dir")
 	flag.Parse()
 	lib := filepath.Join(*repo, "lib")
+	// the harness module resolves the library at modLib (go.mod: replace ... => /repo/lib). When another tree is
+	// checked (-repo: a scratch copy carrying a seeded change) EVERY source file of that tree is overlaid onto
+	// the path the module resolves, so that what is built is the copy
+	const modLib = "/repo/lib"
 	replace := map[string]string{}
 	os.RemoveAll(*out)
 	if err := os.MkdirAll(*out, 0o755); err != nil {
@@ -67,6 +71,9 @@ func main() {
 		}
 		rel, _ := filepath.Rel(lib, p)
 		if strings.HasPrefix(rel, "verifshim") || strings.HasPrefix(filepath.Base(rel), "verif_") {
+			if lib != modLib && !strings.HasPrefix(rel, "verifshim") {
+				replace[filepath.Join(modLib, rel)] = p
+			}
 			return nil // shim sources and the hook files themselves stay as they are
 		}
 		src, err := os.ReadFile(p)
@@ -106,6 +113,9 @@ func main() {
 			checkNoChan(fset, f, rel)
 		}
 		if !changed {
+			if lib != modLib {
+				replace[filepath.Join(modLib, rel)] = p
+			}
 			return nil
 		}
 		var buf bytes.Buffer
@@ -117,7 +127,7 @@ func main() {
 		if err := os.WriteFile(dst, buf.Bytes(), 0o644); err != nil {
 			return err
 		}
-		replace[p] = dst
+		replace[filepath.Join(modLib, rel)] = dst
 		return nil
 	})
 	if err != nil {
@@ -132,7 +142,7 @@ func main() {
 			die("no shim sources for %s", pkg)
 		}
 		for _, s := range files {
-			replace[filepath.Join(lib, "verifshim", pkg, filepath.Base(s))] = s
+			replace[filepath.Join(modLib, "verifshim", pkg, filepath.Base(s))] = s
 		}
 	}
 	os.WriteFile(filepath.Join(*out, "warnings.txt"), []byte(strings.Join(warnings, "\n")), 0o644)
